@@ -111,24 +111,26 @@ TABLE = [
 # d0 / d1 carry operands (wx wy / wx wy llx lly urx ury) but stand for no Op; their operands are not inspected.
 ANY_OPERANDS = {'d0', 'd1'}
 
-# hand-written rows: (extra precondition on the operands beyond the kind prefix, relation on the appended ops)
+# hand-written rows whose operation is still a plain value: (extra precondition on the operands, operations)
 SPECIAL = {
- 'J':  ('0 <= int_of(a[0]) <= 2', 'out.len() == 1 && out[0] == Op::LineCap { cap: linecap_of(int_of(a[0])) }'),
- 'j':  ('0 <= int_of(a[0]) <= 2', 'out.len() == 1 && out[0] == Op::LineJoin { join: linejoin_of(int_of(a[0])) }'),
- 'Tr': ('0 <= int_of(a[0]) <= 5', 'out.len() == 1 && out[0] == Op::TextRenderMode { mode: textmode_of(int_of(a[0])) }'),
+ 'J':  ('0 <= int_of(a[0]) <= 2', ['Op::LineCap { cap: linecap_of(int_of(a[0])) }']),
+ 'j':  ('0 <= int_of(a[0]) <= 2', ['Op::LineJoin { join: linejoin_of(int_of(a[0])) }']),
+ 'Tr': ('0 <= int_of(a[0]) <= 5', ['Op::TextRenderMode { mode: textmode_of(int_of(a[0])) }']),
+ 'ri': ('intent_of(name_of(a[0])) is Some', ['Op::RenderingIntent { intent: intent_of(name_of(a[0]))->Some_0 }']),
+ 'BI': ('ii is Ok', ['Op::InlineImage { image: ii->Ok_0 }']),
+ 'ID': ('false', []),
+ 'EI': ('false', []),
+}
+# rows whose operation carries a Vec (no spec-level constructor): (extra precondition, relation on the appended ops `out`)
+RELATIONAL = {
  'd':  ('all_num(arr_of(a[0]))',
         'out.len() == 1 && (out[0] matches Op::Dash { pattern, phase } && pattern@ =~= nums_of(arr_of(a[0])) && phase == num_of(a[1]))'),
- 'ri': ('intent_of(name_of(a[0])) is Some',
-        'out.len() == 1 && out[0] == Op::RenderingIntent { intent: intent_of(name_of(a[0]))->Some_0 }'),
  'SC': ('true', 'out.len() == 1 && (out[0] matches Op::StrokeColor { color } && (color matches Color::Other(v) && v@ =~= a))'),
  'SCN':('true', 'out.len() == 1 && (out[0] matches Op::StrokeColor { color } && (color matches Color::Other(v) && v@ =~= a))'),
  'sc': ('true', 'out.len() == 1 && (out[0] matches Op::FillColor { color } && (color matches Color::Other(v) && v@ =~= a))'),
  'scn':('true', 'out.len() == 1 && (out[0] matches Op::FillColor { color } && (color matches Color::Other(v) && v@ =~= a))'),
  'TJ': ('all_tj(arr_of(a[0]))',
         'out.len() == 1 && (out[0] matches Op::TextDrawAdjusted { array } && array@ =~= tj_items(arr_of(a[0])))'),
- 'BI': ('ii is Ok', 'out.len() == 1 && out[0] == Op::InlineImage { image: ii->Ok_0 }'),
- 'ID': ('false', 'false'),
- 'EI': ('false', 'false'),
 }
 
 KIND_PRED = {'N': 'is_num(a[%d])', 'I': 'a[%d] is Integer', 'M': 'a[%d] is Name', 'S': 'a[%d] is String',
@@ -172,6 +174,7 @@ def main():
         o.append('pub open spec fn G_%s() -> int { %d }' % (g, gi))
     # keyword index
     o.append('// row number of the keyword in the table (1-based); 0 = not an operator of PDF 1.7')
+    o.append('#[verifier::opaque]')
     o.append('pub open spec fn kw(op: Seq<char>) -> int {')
     o.append(chain([('op == %s@' % lit(kw), str(i)) for i, (kw, *_) in enumerate(TABLE, 1)], '0').rstrip('\n'))
     o.append('}')
@@ -202,23 +205,28 @@ def main():
                 p = KIND_PRED[k] % i if '%d' in KIND_PRED[k] else KIND_PRED[k]
                 if p != 'true':
                     conds.append(p)
-        if kw in SPECIAL and SPECIAL[kw][0] != 'true':
-            conds.append('(' + SPECIAL[kw][0] + ')')
+        extra = (SPECIAL.get(kw) or RELATIONAL.get(kw) or ('true',))[0]
+        if extra != 'true':
+            conds.append('(' + extra + ')')
         rows.append(('k == %d /* %s */' % (K[kw], kw.replace('*', 'star')), ' && '.join(conds) if conds else 'true'))
     o.append(chain(rows, 'false').rstrip('\n'))
     o.append('}')
-    # rel
-    o.append('// the operations the keyword stands for, as a relation on the sequence `out` of appended operations')
-    o.append('pub open spec fn rel_k(k: int, a: Seq<Primitive>, last: Point, ii: Result<Arc<ImageXObject>>, out: Seq<Op>) -> bool {')
+    # expected
+    o.append('// the operations the keyword stands for (rows whose operations are plain values)')
+    o.append('pub open spec fn expected_k(k: int, a: Seq<Primitive>, last: Point, ii: Result<Arc<ImageXObject>>) -> Seq<Op> {')
     rows = []
     for kw, g, sig, ops, last in TABLE:
+        if kw in RELATIONAL:
+            continue
         if ops is None:
-            val = SPECIAL[kw][1]
-        else:
-            cs = ['out.len() == %d' % len(ops)] + ['out[%d] == %s' % (i, expand(e)) for i, e in enumerate(ops)]
-            val = ' && '.join(cs)
-        rows.append(('k == %d /* %s */' % (K[kw], kw.replace('*', 'star')), val))
-    o.append(chain(rows, 'out.len() == 0').rstrip('\n'))
+            ops = SPECIAL[kw][1]
+        rows.append(('k == %d /* %s */' % (K[kw], kw.replace('*', 'star')), 'seq![%s]' % ', '.join(expand(e) for e in ops)))
+    o.append(chain(rows, 'Seq::empty()').rstrip('\n'))
+    o.append('}')
+    o.append('// ... and the rows whose operation carries a vector: a relation on the sequence `out` of appended operations')
+    o.append('pub open spec fn is_relational_k(k: int) -> bool { %s }' % ' || '.join('k == %d' % K[kw] for kw in RELATIONAL))
+    o.append('pub open spec fn rel_relational_k(k: int, a: Seq<Primitive>, out: Seq<Op>) -> bool {')
+    o.append(chain([('k == %d /* %s */' % (K[kw], kw), RELATIONAL[kw][1]) for kw in RELATIONAL], 'false').rstrip('\n'))
     o.append('}')
     # new_last
     o.append('// current point after the operator (Table 59: only m l c v y move it among the operators modelled here)')
@@ -229,12 +237,15 @@ def main():
     o.append('pub open spec fn group_of(op: Seq<char>) -> int { group_k(kw(op)) }')
     o.append('pub open spec fn arity(op: Seq<char>) -> int { arity_k(kw(op)) }')
     o.append('pub open spec fn pre(op: Seq<char>, a: Seq<Primitive>, ii: Result<Arc<ImageXObject>>) -> bool { pre_k(kw(op), a, ii) }')
-    o.append('pub open spec fn rel(op: Seq<char>, a: Seq<Primitive>, last: Point, ii: Result<Arc<ImageXObject>>, out: Seq<Op>) -> bool { rel_k(kw(op), a, last, ii, out) }')
+    o.append('pub open spec fn rel(op: Seq<char>, a: Seq<Primitive>, last: Point, ii: Result<Arc<ImageXObject>>, out: Seq<Op>) -> bool {')
+    o.append('    if is_relational_k(kw(op)) { rel_relational_k(kw(op), a, out) } else { same_ops(out, expected_k(kw(op), a, last, ii)) }')
+    o.append('}')
     o.append('pub open spec fn new_last(op: Seq<char>, a: Seq<Primitive>, last: Point) -> Point { new_last_k(kw(op), a, last) }')
-    # literal lemma
+    # literal lemmas
     lits = [kw for kw, *_ in TABLE] + ['Do0', 'AbsoluteColorimetric', 'RelativeColorimetric', 'Saturation', 'Perceptual']
+    nk = len(TABLE) + 1
     o.append('// the characters of every string literal used by the table and by the code (reveal_strlit hints, R9)')
-    o.append('pub proof fn lemma_literals()')
+    o.append('pub proof fn lemma_literal_chars()')
     o.append('    ensures')
     for kw in lits:
         cs = ['%s@.len() == %d' % (lit(kw), len(kw))] + ['%s@[%d] == %s' % (lit(kw), i, chlit(c)) for i, c in enumerate(kw)]
@@ -242,6 +253,28 @@ def main():
     o.append('{')
     for kw in lits:
         o.append('    reveal_strlit(%s);' % lit(kw))
+    o.append('}')
+    o.append('// row number of every keyword literal (one small lemma each, so that no query has to compare all pairs)')
+    for i, kw in enumerate(lits[:nk]):
+        o.append('proof fn lemma_kw_%d() ensures kw(%s@) == %d { reveal(kw); lemma_literal_chars(); }' % (i, lit(kw), K.get(kw, 0)))
+    o.append('// a keyword different from every table literal is not in the table')
+    o.append('pub proof fn lemma_kw_unknown(op: Seq<char>)')
+    o.append('    requires')
+    for kw in lits[:len(TABLE)]:
+        o.append('        op != %s@,' % lit(kw))
+    o.append('    ensures kw(op) == 0')
+    o.append('{ reveal(kw); }')
+    o.append('pub proof fn lemma_literals()')
+    o.append('    ensures')
+    for kw in lits:
+        cs = ['%s@.len() == %d' % (lit(kw), len(kw))] + ['%s@[%d] == %s' % (lit(kw), i, chlit(c)) for i, c in enumerate(kw)]
+        o.append('        ' + ' && '.join(cs) + ',')
+    for kw in lits[:nk]:
+        o.append('        kw(%s@) == %d,' % (lit(kw), K.get(kw, 0)))
+    o.append('{')
+    o.append('    lemma_literal_chars();')
+    for i in range(nk):
+        o.append('    lemma_kw_%d();' % i)
     o.append('}')
     path = os.path.join(os.path.dirname(os.path.abspath(__file__)), 'table_spec.rs')
     with open(path, 'w') as f:
